@@ -1,8 +1,8 @@
 (* C08 -- Subcommands scope what follows them.
    Property theorems only; proofs live in Lemmas/. *)
 From Coq Require Import List.
-From BpafModel Require Import Conv.
-From BpafLemmas Require Import Tac Find Reach Ledger NoLoss C05Lemmas OkReach OkLaws HelpLaws CmdLaws PickLaws ConvRefine ConvChain ConvTree ConvTreeSound.
+From BpafModel Require Import Conv Wf.
+From BpafLemmas Require Import Tac Find Reach Ledger NoLoss C05Lemmas OkReach OkLaws HelpLaws CmdLaws PickLaws ConvRefine ConvChain ConvTree ConvTreeSound TotalLaws HelpWins.
 Import ListNotations.
 
 (* A subcommand is entered only when its name is the FIRST live item of the enclosing scope. *)
@@ -90,6 +90,24 @@ Theorem C08_help_after_name :
       run_sub_body env inf m s (r, s1) = (SFail (FStdout (HHelp (path s3) inf m detailed)), s3).
 Proof. exact help_found. Qed.
 Print Assumptions C08_help_after_name.
+
+(* ... in full for a subcommand without nested subcommands / adjacent groups: once the name is the first
+   unclaimed item, a help flag anywhere in the subcommand's window makes the command parser return the
+   SUBCOMMAND's help (its info, its meta, the extended path) as a final outcome -- whatever else in the window
+   is missing, duplicated or malformed *)
+Theorem C08_help_after_name_describes_subcommand :
+  forall env name aliases shorts help q inf s s1 cur s2 i a,
+    take_cmd_any ((name :: aliases) ++ map utf8_encode_char shorts) s = (true, s1) ->
+    current s1 = Some cur -> set_scope s1 cur (sc_end s1) = Some s2 ->
+    memb q = true -> okp q = true -> invariant_ok (meta_of q) = true ->
+    kinds_ok (fun k => accepts k a = false) q ->
+    G s2 -> nth_error (items s2) i = Some a -> live s2 i -> in_scope s2 i = true ->
+    matches_arg (i_help_arg inf) false a = true ->
+    exists detailed s4,
+      eval env (PCmd name aliases shorts help false (Options q inf)) s =
+      (RErr (MsgParseFailure (FStdout (HHelp (path s4) inf (meta_of q) detailed))), s4).
+Proof. exact help_after_name. Qed.
+Print Assumptions C08_help_after_name_describes_subcommand.
 
 Theorem C08_inner_outcome_final :
   forall f, can_catch (MsgParseFailure f) = false /\
